@@ -475,6 +475,8 @@ class TreeHeapMixin:
     return super().lib_copy_copy(it, a, k)
 
   def bi_list(self, it, a, k):
+    if a and isinstance(a[0], VLazy):
+      return super().bi_list(it, a, k)
     if a and isinstance(a[0], VTree):
       if self.kind_is(a[0].t, T_LIST, T_TUPLE) is None:
         raise Unsupported('list() of a dict / leaf node')
